@@ -70,21 +70,19 @@ def run(P, R):
     crash = ('process.crashed()', True)
     for tgt, strat in (('self.on_restart', 'RESTART'), ('self.on_shutdown', 'SHUTDOWN')):
         cs = [c for c in own_nodes(pe.node) if isinstance(c, ast.Call) and call_text(c) == tgt]
-        ok = len(cs) == 1 and {(IS_MASTER, True), crash, ('strategy == RunningFailureStrategies.%s' % strat, True)} <= \
+        ok = len(cs) == 1 and {(IS_MASTER, True), crash, ('process.rules.running_failure_strategy == RunningFailureStrategies.%s' % strat, True)} <= \
             {tuple(f) for f in fm.at(cs[0])}
         R.check(r2, ok, 'crash with %s -> %s()' % (strat, tgt[5:]), 'dispatch|crash|%s' % strat, pe.loc(),
                 'on_process_state_event does not call %s() exactly for a crashed process with strategy %s on the '
                 'Master' % (tgt[5:], strat))
     ad = [c for c in own_nodes(pe.node) if isinstance(c, ast.Call)
           and call_text(c) == 'self.supvisors.failure_handler.add_default_job']
-    defs = {a.targets[0].id: ast.unparse(a.value) for a in own_nodes(pe.node) if isinstance(a, ast.Assign)
-            and isinstance(a.targets[0], ast.Name)}
+    src = 'process.rules.running_failure_strategy'
     ok = len(ad) == 1 and {(IS_MASTER, True), crash, ('process.forced_state is None', True)} <= \
         {tuple(f) for f in fm.at(ad[0])} and \
-        defs.get('strategy') == 'process.rules.running_failure_strategy' and \
-        any(f[1] and f[0] in ('strategy in [RunningFailureStrategies.STOP_APPLICATION, '
+        any(f[1] and f[0] in (src + ' in [RunningFailureStrategies.STOP_APPLICATION, '
                               'RunningFailureStrategies.RESTART_APPLICATION]',
-                              'strategy in [RunningFailureStrategies.RESTART_APPLICATION, '
+                              src + ' in [RunningFailureStrategies.RESTART_APPLICATION, '
                               'RunningFailureStrategies.STOP_APPLICATION]') for f in fm.at(ad[0]))
     R.check(r2, ok, 'crash with an application-level strategy -> add_default_job (not for a forced state)',
             'dispatch|crash|application', pe.loc(), 'on_process_state_event does not call add_default_job exactly for a '
